@@ -291,6 +291,15 @@ class InlinePass(ir.passes.InPlacePass):
             for output in node.outputs:
                 if output.name is not None:
                     self._used_value_names.add(output.name)
+        # Values inlined into this graph are visible in the subgraphs of its nodes, so
+        # their names must differ from the names defined there as well
+        for nested_node in ir.traversal.RecursiveGraphIterator(graph):
+            subgraph = nested_node.graph
+            if subgraph is graph or subgraph is None:
+                continue
+            for value in (*subgraph.inputs, *subgraph.initializers.values(), *nested_node.outputs):
+                if value.name is not None:
+                    self._used_value_names.add(value.name)
 
         next_id: dict[ir.OperatorIdentifier, int] = defaultdict(int)
         inlined_count = 0
